@@ -12,6 +12,7 @@ from .numpy_vjps import (
     dot_adjoint_1,
     match_complex,
     nograd_functions,
+    power_base_guard,
     replace_zero,
     tensordot_adjoint_0,
     tensordot_adjoint_1,
@@ -77,7 +78,7 @@ defjvp(anp.mod, lambda g, ans, x, y: broadcast(g, ans), lambda g, ans, x, y: -g 
 defjvp(anp.remainder, lambda g, ans, x, y: broadcast(g, ans), lambda g, ans, x, y: -g * anp.floor(x / y))
 defjvp(
     anp.power,
-    lambda g, ans, x, y: g * y * x ** anp.where(y, y - 1, 1.0),
+    lambda g, ans, x, y: g * y * power_base_guard(x, y) ** (y - 1),
     lambda g, ans, x, y: g * anp.log(replace_zero(x, 1.0)) * ans,
 )
 defjvp(anp.arctan2, lambda g, ans, x, y: g * y / (x**2 + y**2), lambda g, ans, x, y: g * -x / (x**2 + y**2))
